@@ -168,6 +168,18 @@ def envOk (gk : Geom FKey) (b : Box FKey) : Bool :=
 def showFault : Fault → String
   | .index => "index" | .nilDeref => "nilDeref" | .nilFunc => "nilFunc" | .explicit => "explicit" | .badState => "badState" | .fuel => "fuel"
 
+mutual
+/-- some `*Bounds` value (at any depth) has a NaN side: whether such a box "has points" — hence its `Len()` and corners —
+is not decided by the property (no point lies in it as a set, yet `Max < Min` is false), so nothing about it is SPEC -/
+def nanBoxG : BGeom → Bool
+  | .bounds a b => (keyOfBits a.x).isNone || (keyOfBits a.y).isNone || (keyOfBits b.x).isNone || (keyOfBits b.y).isNone
+  | .collection gs => nanBoxL gs
+  | _ => false
+def nanBoxL : List BGeom → Bool
+  | [] => false
+  | g :: gs => nanBoxG g || nanBoxL gs
+end
+
 /-- a geometry with NaN coordinates (outside the property's quantifier).  Len/Points do not look at coordinates
 (`C04_len`, `C04_points` hold for every coordinate type), so they are judged as usual, bit for bit; `Bounds()` is
 only compared with the model run at `NV FKey` (`math.Min/Max/<` with their NaN cases, NaN.lean; what that model
@@ -190,7 +202,7 @@ def judgeGeomNaN (g : BGeom) (cls0 : String) (rhs : Tok) : String :=
         else if !a.indep then some "two-iterators-interfere"
         else none
     match spec with
-    | some why => s!"SPEC {cls} {why}"
+    | some why => if nanBoxG g then s!"DIFF {cls} {why} (a *Bounds with a NaN side: outside the specification)" else s!"SPEC {cls} {why}"
     | none =>
       let nvq (q : UInt64 × UInt64 × UInt64 × UInt64) : Box (NV FKey) :=
         ⟨⟨nvOfBits q.1, nvOfBits q.2.1⟩, ⟨nvOfBits q.2.2.1, nvOfBits q.2.2.2⟩⟩
